@@ -23,6 +23,7 @@ func init() {
 		ruleSlot(c, "C14.D7")
 		ruleT2(c, "C14.D8")
 		ruleZ4(c, "C14.D9")
+		ruleD10(c, "C14.D10")
 	}
 }
 
@@ -556,4 +557,200 @@ func ruleD6(c *Ctx, id string) {
 			}
 		}
 	}
+}
+
+// ruleD10: package-level variables of go-nfsd are shared by every request
+// (handlers run concurrently, holding at most the locks of the inodes they
+// work on).  After initialisation they are read-only: no function outside the
+// package initialisers stores to one, stores through one (elements of a
+// package-level slice or array, fields of a package-level struct), or hands
+// the memory of one to code that may write it (a scratch buffer given to an
+// encoder).
+func ruleD10(c *Ctx, id string) {
+	P, R := c.P, c.R
+	R.Rule(id, "package-level variables are read-only after initialisation: outside package initialisers nothing stores to a go-nfsd package-level variable, stores through it, or hands its memory to code that may write it", 2)
+	var globals []*ssa.Global
+	for _, pkg := range P.Prog.AllPackages() {
+		if pkg.Pkg == nil || !strings.HasPrefix(pkg.Pkg.Path(), modPath) || strings.Contains(pkg.Pkg.Path(), "/cmd/") {
+			continue
+		}
+		for _, m := range pkg.Members {
+			if g, ok := m.(*ssa.Global); ok && !strings.HasPrefix(g.Name(), "init$") {
+				globals = append(globals, g)
+			}
+		}
+	}
+	sort.Slice(globals, func(i, j int) bool { return globals[i].String() < globals[j].String() })
+	// rootGlobal: the package-level variable whose memory addr/value v denotes
+	var rootGlobal func(v ssa.Value, depth int) *ssa.Global
+	rootGlobal = func(v ssa.Value, depth int) *ssa.Global {
+		if depth > 8 {
+			return nil
+		}
+		switch x := v.(type) {
+		case *ssa.Global:
+			return x
+		case *ssa.UnOp:
+			if x.Op == token.MUL {
+				// a load: the value of a package-level slice, map or pointer still denotes the variable's memory
+				if g := rootGlobal(x.X, depth+1); g != nil {
+					switch x.Type().Underlying().(type) {
+					case *types.Slice, *types.Map, *types.Pointer:
+						return g
+					}
+				}
+			}
+		case *ssa.IndexAddr:
+			return rootGlobal(x.X, depth+1)
+		case *ssa.FieldAddr:
+			return rootGlobal(x.X, depth+1)
+		case *ssa.Slice:
+			return rootGlobal(x.X, depth+1)
+		case *ssa.Convert:
+			return rootGlobal(x.X, depth+1)
+		case *ssa.ChangeType:
+			return rootGlobal(x.X, depth+1)
+		}
+		return nil
+	}
+	isRepoGlobal := map[*ssa.Global]bool{}
+	for _, g := range globals {
+		isRepoGlobal[g] = true
+	}
+	// mayWrite: function f may write the memory its parameter i denotes
+	var mayWrite func(f *ssa.Function, i int, depth int) bool
+	mayWrite = func(f *ssa.Function, i int, depth int) bool {
+		if f == nil || f.Blocks == nil || depth > 3 || i >= len(f.Params) {
+			return true
+		}
+		pm := f.Params[i]
+		derived := func(v ssa.Value) bool {
+			for k := 0; k < 8; k++ {
+				switch x := v.(type) {
+				case *ssa.Parameter:
+					return x == pm
+				case *ssa.IndexAddr:
+					v = x.X
+				case *ssa.FieldAddr:
+					v = x.X
+				case *ssa.Slice:
+					v = x.X
+				case *ssa.Convert:
+					v = x.X
+				case *ssa.ChangeType:
+					v = x.X
+				case *ssa.MakeInterface:
+					v = x.X
+				default:
+					return false
+				}
+			}
+			return false
+		}
+		for _, b := range f.Blocks {
+			for _, in := range b.Instrs {
+				switch x := in.(type) {
+				case *ssa.Store:
+					if derived(x.Addr) {
+						return true
+					}
+					if derived(x.Val) {
+						return true // kept somewhere: who knows
+					}
+				case *ssa.MapUpdate:
+					if derived(x.Map) {
+						return true
+					}
+				case ssa.CallInstruction:
+					cc := x.Common()
+					for j, a := range cc.Args {
+						if !derived(a) {
+							continue
+						}
+						if bi, isB := cc.Value.(*ssa.Builtin); isB {
+							if bi.Name() == "copy" && j == 0 || bi.Name() == "append" && j == 0 || bi.Name() == "delete" || bi.Name() == "clear" {
+								return true
+							}
+							continue
+						}
+						cal := cc.StaticCallee()
+						if cal == nil {
+							return true
+						}
+						if funcPkg(cal) != nil {
+							switch funcPkg(cal).Path() {
+							case "fmt", "strings", "bytes", "log", "strconv", "sort", "io":
+								if funcPkg(cal).Path() != "sort" && funcPkg(cal).Path() != "io" {
+									continue // these read their arguments
+								}
+							}
+						}
+						if mayWrite(cal, j, depth+1) {
+							return true
+						}
+					}
+				}
+			}
+		}
+		return false
+	}
+	n := 0
+	var fns []*ssa.Function
+	fns = append(fns, P.RepoFuncs()...)
+	for _, fn := range fns {
+		if strings.HasPrefix(relPkg(fn), "cmd/") || (fn.Name() == "init" && fn.Synthetic != "") {
+			continue
+		}
+		for _, b := range fn.Blocks {
+			for _, in := range b.Instrs {
+				report := func(g *ssa.Global, what string) {
+					if g == nil || !isRepoGlobal[g] {
+						return
+					}
+					n++
+					R.Fail(id, fmt.Sprintf("%s|%s %s", FuncName(ownerOf(fn)), what, g.Name()), P.Pos(in.Pos()), "package-level variables are not modified after initialisation", fmt.Sprintf("%s %s.%s, which every concurrent request shares and no lock protects", what, g.Pkg.Pkg.Name(), g.Name()))
+				}
+				switch x := in.(type) {
+				case *ssa.Store:
+					report(rootGlobal(x.Addr, 0), "stores to")
+				case *ssa.MapUpdate:
+					report(rootGlobal(x.Map, 0), "updates the map")
+				case ssa.CallInstruction:
+					cc := x.Common()
+					for j, a := range cc.Args {
+						g := rootGlobal(a, 0)
+						if g == nil || !isRepoGlobal[g] {
+							continue
+						}
+						if bi, isB := cc.Value.(*ssa.Builtin); isB {
+							if bi.Name() == "copy" && j == 0 || bi.Name() == "append" && j == 0 || bi.Name() == "delete" || bi.Name() == "clear" {
+								report(g, "writes (builtin "+bi.Name()+") into")
+							}
+							continue
+						}
+						cal := cc.StaticCallee()
+						if cal != nil && funcPkg(cal) != nil {
+							switch funcPkg(cal).Path() {
+							case "fmt", "strings", "bytes", "log", "strconv":
+								continue
+							}
+						}
+						if cal == nil || mayWrite(cal, j, 0) {
+							name := "a dynamic callee"
+							if cal != nil {
+								name = FuncName(cal)
+							}
+							report(g, "hands to "+name+" the memory of")
+						}
+					}
+				}
+			}
+		}
+	}
+	var names []string
+	for _, g := range globals {
+		names = append(names, g.Pkg.Pkg.Name()+"."+g.Name())
+	}
+	R.Check(len(globals) >= 1, id, "inventory|package-level variables", "?", "the package-level variables of go-nfsd (outside cmd/) are enumerated", fmt.Sprintf("%d variables: %s", len(globals), strings.Join(names, ", ")), "no package-level variable found: the rule has lost sight of its subjects")
+	R.Check(n == 0, id, "summary|no writer outside initialisers", "?", "no function outside package initialisers writes a package-level variable or its memory", "0 writers", fmt.Sprintf("%d writers (listed above)", n))
 }
